@@ -207,6 +207,13 @@ def run_rules(mod, ctx: Ctx, only: Optional[set[str]] = None) -> None:
         n_canon = canon_repo(ctx.repo)
         rep = normalise_repo(ctx.repo, ctx.keep_names)
         n_canon += canon_repo(ctx.repo)
+        if os.environ.get("SA_NO_FOLD") != "1":
+            from .canon import fold_tables_repo
+
+            n_fold = fold_tables_repo(ctx.repo, mentioned_words(mod))
+            if n_fold:
+                n_canon += canon_repo(ctx.repo)
+                ctx.note(f"module-level literal tables / constants folded (sa/canon.py C6): {n_fold} rewrites")
         ctx.note(f"canonical statement forms (sa/canon.py): {n_canon} rewrites (return temporaries, negated tests with else, else after an exiting branch)")
         ctx.repo._normalised = True
         ctx.R = Resolver(ctx.repo)
@@ -251,6 +258,39 @@ def run_fixtures(mod, prop: str, tier: str) -> list[str]:
                 continue
             problems.append(f"fixture {spec['dir']} for {rule_name}: {exc}")
     return problems
+
+
+def _rule_files(mod) -> set:
+    import re
+
+    files = {mod.__file__}
+    for v in vars(mod).values():
+        m2 = sys.modules.get(getattr(v, "__module__", "") or "")
+        if m2 is not None and getattr(m2, "__name__", "").startswith("props.") and getattr(m2, "__file__", None):
+            files.add(m2.__file__)
+    todo = list(files)
+    seen = set()
+    while todo:
+        fl = todo.pop()
+        if fl in seen:
+            continue
+        seen.add(fl)
+        for m in re.findall(r"props\.(C\d\d)", Path(fl).read_text()):
+            other = Path(fl).parent / f"{m}.py"
+            if other.exists() and str(other) not in seen:
+                todo.append(str(other))
+    return seen
+
+
+def mentioned_words(mod) -> frozenset:
+    """Every identifier-like word of the rule module (and of the sibling rule modules it borrows
+    from): module-level constants the rules name are anchors and are not folded away."""
+    import re
+
+    words = set()
+    for fl in _rule_files(mod):
+        words |= set(re.findall(r"\b[A-Za-z_][A-Za-z0-9_]*\b", Path(fl).read_text()))
+    return frozenset(words)
 
 
 def helper_names_in(mod, repo) -> frozenset:
